@@ -263,8 +263,11 @@ func (state *RuntimeState) webauthnAuthFinish(w http.ResponseWriter, r *http.Req
 		return
 	}
 
+	// A challenge is a one time value: take it out of the map while holding the
+	// lock so that concurrent responses cannot both use it.
 	state.Mutex.Lock()
 	localAuth, ok := state.localAuthData[authData.Username]
+	delete(state.localAuthData, authData.Username)
 	state.Mutex.Unlock()
 	if !ok || localAuth.ExpiresAt.Before(time.Now()) ||
 		localAuth.WebAuthnChallenge == nil {
